@@ -3,9 +3,14 @@
 package vlib
 
 import (
+	"context"
+	"database/sql"
 	"errors"
 	"fmt"
+	"io"
+	"io/fs"
 	"sync"
+	"syscall"
 	"time"
 
 	"github.com/transparency-dev/witness/internal/persistence"
@@ -15,23 +20,23 @@ import (
 
 // Storage call points of the LogStatePersistence interface.
 const (
-	PInit      = "Init"
-	PLogs      = "Logs"
-	PReadOps   = "ReadOps"
-	PReadGet   = "Read.GetLatest"
-	PWriteOps  = "WriteOps"
-	PWriteGet  = "Write.GetLatest"
-	PWriteSet  = "Write.Set"
+	PInit     = "Init"
+	PLogs     = "Logs"
+	PReadOps  = "ReadOps"
+	PReadGet  = "Read.GetLatest"
+	PWriteOps = "WriteOps"
+	PWriteGet = "Write.GetLatest"
+	PWriteSet = "Write.Set"
 	// PWriteSetDone is a yield-only point right after the store's Set has returned (the
 	// write has taken effect but the caller has not seen the return yet).
 	PWriteSetDone = "Write.Set:done"
-	PWriteClos = "Write.Close"
+	PWriteClos    = "Write.Close"
 )
 
 // FaultSpec asks for one storage call of a request to fail.
 type FaultSpec struct {
 	Point string `json:"point"`
-	Code  string `json:"code,omitempty"` // plain | unavailable | internal | deadline | cancelctx (no error: the request's context is cancelled at this point)
+	Code  string `json:"code,omitempty"` // plain | unavailable | internal | deadline | enoent | norows | eof | ctxdeadline | cancelctx (no error: the request's context is cancelled at this point)
 	Nth   int    `json:"nth,omitempty"`  // which occurrence within the request (0 = first)
 }
 
@@ -45,6 +50,15 @@ func (f FaultSpec) InjectedError() error {
 		return status.Error(codes.Internal, msg)
 	case "deadline":
 		return status.Error(codes.DeadlineExceeded, msg)
+	case "enoent":
+		// the database file has gone (unmounted volume): a failed read that "looks like" absence
+		return fmt.Errorf("%s: %w", msg, &fs.PathError{Op: "open", Path: "/var/lib/witness/witness.db", Err: syscall.ENOENT})
+	case "norows":
+		return fmt.Errorf("%s: %w", msg, sql.ErrNoRows)
+	case "eof":
+		return fmt.Errorf("%s: %w", msg, io.ErrUnexpectedEOF)
+	case "ctxdeadline":
+		return fmt.Errorf("%s: %w", msg, context.DeadlineExceeded)
 	}
 	return errors.New(msg)
 }
